@@ -17,7 +17,7 @@ from vf.util import closure_has_zero, graph_of, tally_ops, tally_prog
 
 PROPERTY = "C10"
 WORKERS = {"quick": 16, "thorough": 16}
-CASES = {"quick": 500, "thorough": 3000}
+CASES = {"quick": 350, "thorough": 3000}
 TIME = {"quick": 55, "thorough": 240}
 CASE_TIMEOUT = 120
 TECHNIQUE = "runtime monitoring with an instrumented scheduler: every task result is fingerprinted when produced and each task's inputs are re-fingerprinted right after it ran (mutation is decided in a serial run, no lucky interleaving needed); outputs of seeded random / FIFO / LIFO topological orders and of the threaded scheduler are compared with each other and with NumPy; user source arrays are compared with private copies"
